@@ -17,6 +17,10 @@
 //!   harness c05 --out DIR ... --two-opts
 //!       additionally saves every font a second time with independently drawn options
 //!       (n2.ufo, options2.json, loaded2.json).
+//!   harness c05 --out DIR ... --varied
+//!       the value is reached through a varied API history (temporary names + rename_layer /
+//!       rename_glyph, decoy layers on the same directory stem, remove and re-create) instead of
+//!       the straight build.
 //!   harness c05 --resave DIR
 //!       for every DIR/case_*/in.ufo: first.json = dump(Font::load(in.ufo)), r.ufo = Font::save of
 //!       that font, second.json = dump(Font::load(r.ufo)); *_error.txt where a step failed
@@ -37,6 +41,76 @@ fn opt<'a>(a: &'a Args, name: &str) -> Option<&'a str> {
 
 fn pretty(j: &J) -> String {
     serde_json::to_string_pretty(j).unwrap()
+}
+
+/// Reaches the abstract font `j` through a varied API history instead of the straight
+/// `build_font`: some layers and glyphs are first created under temporary names and then renamed
+/// (`rename_layer`, `rename_glyph`) to their final names, in random order; decoy layers whose names
+/// map to the same directory stem are created and removed on the way; the last layer may be
+/// removed and re-created.  The resulting value must dump as `j` (directories and file names apart).
+fn build_font_varied(j: &J, rng: &mut Rng) -> Result<Font, String> {
+    let mut tmp = j.clone();
+    let mut layer_renames: Vec<(String, String)> = Vec::new(); // (temporary, final)
+    let mut glyph_renames: Vec<(usize, String, String)> = Vec::new(); // (layer index, temporary, final)
+    let mut n = 0u32;
+    if let Some(ls) = tmp.get_mut("layers").and_then(|l| l.as_array_mut()) {
+        for (i, l) in ls.iter_mut().enumerate() {
+            if let Some(gs) = l.get_mut("glyphs").and_then(|g| g.as_array_mut()) {
+                for g in gs.iter_mut() {
+                    if rng.below(3) == 0 {
+                        n += 1;
+                        let fin = g["name"].as_str().unwrap_or("").to_string();
+                        let t = format!("tmp.Glyph.{}", n);
+                        g["name"] = J::String(t.clone());
+                        glyph_renames.push((i, t, fin));
+                    }
+                }
+            }
+            if i > 0 && rng.below(3) != 0 {
+                n += 1;
+                let fin = l["name"].as_str().unwrap_or("").to_string();
+                let t = format!("Tmp layer {}", n);
+                l["name"] = J::String(t.clone());
+                layer_renames.push((t, fin));
+            }
+        }
+    }
+    let mut font = fontio::build_font(&tmp)?;
+    // glyph renames first (layers are still addressed by their temporary names)
+    let lnames: Vec<String> = font.layers.iter().map(|l| l.name().to_string()).collect();
+    for (i, t, fin) in glyph_renames {
+        let layer = font.layers.get_mut(&lnames[i]).ok_or("layer vanished")?;
+        layer.rename_glyph(&t, &fin, false).map_err(|e| format!("rename_glyph {:?} -> {:?}: {}", t, fin, e))?;
+    }
+    // layer renames in random order, with decoys on the same directory stem
+    while !layer_renames.is_empty() {
+        let k = rng.below(layer_renames.len() as u64) as usize;
+        let (t, fin) = layer_renames.remove(k);
+        let decoy: Option<String> = if rng.below(3) == 0 {
+            let d: String = fin.chars().map(|c| if c == '/' { ':' } else if c.is_ascii_uppercase() { c.to_ascii_lowercase() } else { c }).collect::<String>();
+            // '/' and ':' are both written '_', upper case X is written X_ : same stem ignoring case only for '/'
+            if d != fin && font.layers.get(&d).is_none() && font.layers.new_layer(&d).is_ok() { Some(d) } else { None }
+        } else {
+            None
+        };
+        font.layers.rename_layer(&t, &fin, false).map_err(|e| format!("rename_layer {:?} -> {:?}: {}", t, fin, e))?;
+        if let Some(d) = decoy {
+            font.layers.remove(&d);
+        }
+    }
+    // remove the last layer and create it again
+    if font.layers.len() > 1 && rng.below(4) == 0 {
+        let last = font.layers.iter().last().unwrap().name().to_string();
+        if let Some(old) = font.layers.remove(&last) {
+            let nl = font.layers.new_layer(&last).map_err(|e| format!("re-creating layer {:?}: {}", last, e))?;
+            nl.color = old.color.clone();
+            nl.lib = old.lib.clone();
+            for g in old.iter() {
+                nl.insert_glyph(g.clone());
+            }
+        }
+    }
+    Ok(font)
 }
 
 fn load_dump(ufo: &Path) -> Result<J, String> {
@@ -118,6 +192,7 @@ pub fn main(a: &Args) {
     }
 
     let two_opts = a.extra.iter().any(|x| x == "--two-opts");
+    let varied = a.extra.iter().any(|x| x == "--varied");
     let given: Option<J> = opt(a, "--font").map(|f| {
         serde_json::from_str(&std::fs::read_to_string(f).expect("cannot read --font file")).expect("--font file is not JSON")
     });
@@ -171,7 +246,8 @@ pub fn main(a: &Args) {
             (wo, json!({"default": dflt, "indent_char": if ic == 0 { "tab" } else { "space" }, "indent_width": iw, "single_quote": q == 1}))
         };
         let mut status = "ok";
-        let built = match catch(|| fontio::build_font(&font_json)) {
+        let mut hist_rng = rng.fork();
+        let built = match catch(|| if varied { build_font_varied(&font_json, &mut hist_rng) } else { fontio::build_font(&font_json) }) {
             Err(p) => Err(format!("PANIC {}", p)),
             Ok(r) => r,
         };
